@@ -887,6 +887,12 @@ def install(extra_modules=()):
     sf.SimpleLocation.__len__ = _sl_len
     SHIMS.append("Bio.SeqFeature.SimpleLocation.__len__ -> same expression on engine ints")
 
+    def _loc_bool(self):
+        return True if sx_len(self) != 0 else False
+    sf.SimpleLocation.__bool__ = _loc_bool
+    sf.CompoundLocation.__bool__ = _loc_bool
+    SHIMS.append("Bio SimpleLocation/CompoundLocation.__bool__ = (len(location) != 0)  [same reason as Record.__bool__]")
+
     try:
         from antismash.common.secmet.record import Record
         Record.__bool__ = lambda self: True if sx_len(self) != 0 else False
